@@ -44,6 +44,12 @@ Fixpoint str_of_words (ws : list Z) : string * list Z :=
          (String (byte_char b0) (String (byte_char b1) (String (byte_char b2) (String (byte_char b3) s))), r')
   end.
 
+(* decoded / data-dependent numbers are never turned into a unary nat without a cap *)
+Definition NAT_CAP : Z := 4194304.
+Definition small_nat (z : Z) : option nat := if (0 <=? z) && (z <? NAT_CAP) then Some (Z.to_nat z) else None.
+Definition nat_of_lit (what : string) (z : Z) : result nat :=
+  match small_nat z with Some n => Done n | None => Fail ("UB: " ++ what ++ ": index out of bounds (beyond any object)") end.
+
 Definition nth_r {A} (msg : string) (l : list A) (n : nat) : result A :=
   match nth_error l n with Some x => Done x | None => Fail msg end.
 
@@ -96,7 +102,8 @@ Definition const_val (m : smod) (id : Z) : result value :=
   end.
 
 Definition const_nat (m : smod) (id : Z) : result nat :=
-  v <~ const_val m id ;; z <~ int_bits v ;; Done (Z.to_nat z).
+  v <~ const_val m id ;; z <~ int_bits v ;;
+  match small_nat z with Some n => Done n | None => unmodelled "array length above the modelled bound (4194304)" end.
 
 Fixpoint kind_of (fuel : nat) (m : smod) (t : Z) : result skind :=
   match fuel with
@@ -109,7 +116,7 @@ Fixpoint kind_of (fuel : nat) (m : smod) (t : Z) : result skind :=
     | TyFloat w => if w =? 32 then Done KFloat else unmodelled ("float width " ++ dec w)
     | TyVec e _ => kind_of f m e
     | TyMat c _ => kind_of f m c
-    | _ => Fail "result type has no component kind"
+    | _ => Done KBool      (* struct / array / pointer results (OpCopyLogical, OpSelect on composites, ...): the kind is not used *)
     end
   end.
 Definition rkind (m : smod) (t : Z) : result skind := kind_of 4 m t.
@@ -124,8 +131,8 @@ Fixpoint zero_of (fuel : nat) (m : smod) (t : Z) : result value :=
     | TyBool => Done (VBool false)
     | TyInt w sg => if w =? 32 then Done (if sg then VI32 0 else VU32 0) else unmodelled ("integer width " ++ dec w)
     | TyFloat w => if w =? 32 then Done (VF32 0) else unmodelled ("float width " ++ dec w)
-    | TyVec e n => z <~ zero_of f m e ;; Done (VVec (repeat z (Z.to_nat n)))
-    | TyMat c n => z <~ zero_of f m c ;; Done (VMat (repeat z (Z.to_nat n)))
+    | TyVec e n => z <~ zero_of f m e ;; if n <=? 4 then Done (VVec (repeat z (Z.to_nat n))) else Fail "vector with more than 4 components"
+    | TyMat c n => z <~ zero_of f m c ;; if n <=? 4 then Done (VMat (repeat z (Z.to_nat n))) else Fail "matrix with more than 4 columns"
     | TyArr e l => z <~ zero_of f m e ;; n <~ const_nat m l ;; Done (VArr (repeat z n))
     | TyRtArr _ => Fail "zero value of a runtime array (buffer contents must be supplied)"
     | TyStruct ms => vs <~ rmap (zero_of f m) ms ;; Done (VStruct vs)
@@ -330,7 +337,7 @@ Definition bind (e : env) (id : Z) (v : value) : env := PM.add (pid id) (SV v) e
 
 Definition index_nat (what : string) (v : value) : result nat :=
   z <~ int_bits v ;;
-  if z <? H32 then Done (Z.to_nat z) else ub (what ++ ": negative index").
+  if z <? H32 then nat_of_lit what z else ub (what ++ ": negative index").
 
 Definition flatten_scalars (comps : list value) : list value :=
   flat_map (fun c => match c with VVec l => l | _ => [c] end) comps.
@@ -339,8 +346,8 @@ Definition construct (m : smod) (t : Z) (parts : list value) : result value :=
   ty <~ ty_of m t ;;
   match ty with
   | TyVec _ n => let l := flatten_scalars parts in
-                 if Nat.eqb (List.length l) (Z.to_nat n) then Done (VVec l) else Fail "OpCompositeConstruct: vector arity"
-  | TyMat _ n => if Nat.eqb (List.length parts) (Z.to_nat n) then Done (VMat parts) else Fail "OpCompositeConstruct: matrix arity"
+                 if Z.of_nat (List.length l) =? n then Done (VVec l) else Fail "OpCompositeConstruct: vector arity"
+  | TyMat _ n => if Z.of_nat (List.length parts) =? n then Done (VMat parts) else Fail "OpCompositeConstruct: matrix arity"
   | TyArr _ _ => Done (VArr parts)
   | TyStruct ms => if Nat.eqb (List.length parts) (List.length ms) then Done (VStruct parts) else Fail "OpCompositeConstruct: struct arity"
   | _ => Fail "OpCompositeConstruct: result type"
@@ -409,7 +416,8 @@ Definition step (m : smod) (e : env) (me : mem) (i : instr) : result (env * mem)
     match sv with
     | VPtr c path =>
       ce <~ nth_r "OpArrayLength: memory cell" me c ;;
-      a <~ get_path "OpArrayLength" (c_val ce) (app path [Z.to_nat member]) ;;
+      mi <~ nat_of_lit "OpArrayLength" member ;;
+      a <~ get_path "OpArrayLength" (c_val ce) (app path [mi]) ;;
       l <~ elems a ;; Done (bind e id (VU32 (Z.of_nat (List.length l))), me)
     | _ => Fail "OpArrayLength: operand is not a pointer"
     end
@@ -422,15 +430,19 @@ Definition step (m : smod) (e : env) (me : mem) (i : instr) : result (env * mem)
   | 79, _ :: id :: v1 :: v2 :: comps =>                                           (* OpVectorShuffle *)
     a <~ g v1 ;; b <~ g v2 ;; la <~ vec_elems a ;; lb <~ vec_elems b ;;
     xs <~ rmap (fun c => if c =? 4294967295 then ub "OpVectorShuffle: component 0xFFFFFFFF (undefined)"
-                         else match nth_error (app la lb) (Z.to_nat c) with
-                              | Some x => Done x | None => ub "OpVectorShuffle: component out of range" end) comps ;;
+                         else match small_nat c with
+                              | Some ci => match nth_error (app la lb) ci with
+                                           | Some x => Done x | None => ub "OpVectorShuffle: component out of range" end
+                              | None => ub "OpVectorShuffle: component out of range" end) comps ;;
     Done (bind e id (VVec xs), me)
   | 80, t :: id :: parts =>                                                       (* OpCompositeConstruct *)
     vs <~ rmap g parts ;; v <~ construct m t vs ;; Done (bind e id v, me)
   | 81, _ :: id :: c :: idx =>                                                    (* OpCompositeExtract *)
-    cv <~ g c ;; x <~ get_path "OpCompositeExtract" cv (map Z.to_nat idx) ;; Done (bind e id x, me)
+    cv <~ g c ;; ns <~ rmap (nat_of_lit "OpCompositeExtract") idx ;;
+    x <~ get_path "OpCompositeExtract" cv ns ;; Done (bind e id x, me)
   | 82, _ :: id :: o :: c :: idx =>                                               (* OpCompositeInsert *)
-    ov <~ g o ;; cv <~ g c ;; x <~ put_path "OpCompositeInsert" cv (map Z.to_nat idx) ov ;; Done (bind e id x, me)
+    ov <~ g o ;; cv <~ g c ;; ns <~ rmap (nat_of_lit "OpCompositeInsert") idx ;;
+    x <~ put_path "OpCompositeInsert" cv ns ov ;; Done (bind e id x, me)
   | 12, t :: id :: set :: inst :: args =>                                         (* OpExtInst *)
     if existsb (Z.eqb set) (sm_glsl m)
     then k <~ rkind m t ;; vs <~ rmap g args ;; v <~ eval_glsl inst k vs ;; Done (bind e id v, me)
@@ -586,8 +598,8 @@ Fixpoint fit (fuel : nat) (m : smod) (t : Z) (v : value) : option value :=
         | TyInt 32 true, VI32 _ => Some v
         | TyInt 32 false, VU32 _ => Some v
         | TyFloat 32, VF32 _ => Some v
-        | TyVec e n, VVec l => if Nat.eqb (List.length l) (Z.to_nat n) then option_map VVec (zip_opt (fit fu m) (repeat e (List.length l)) l) else None
-        | TyMat c n, VMat l => if Nat.eqb (List.length l) (Z.to_nat n) then option_map VMat (zip_opt (fit fu m) (repeat c (List.length l)) l) else None
+        | TyVec e n, VVec l => if Z.of_nat (List.length l) =? n then option_map VVec (zip_opt (fit fu m) (repeat e (List.length l)) l) else None
+        | TyMat c n, VMat l => if Z.of_nat (List.length l) =? n then option_map VMat (zip_opt (fit fu m) (repeat c (List.length l)) l) else None
         | TyArr e len, VArr l =>
           match const_nat m len with
           | Done n => if Nat.eqb (List.length l) n then option_map VArr (zip_opt (fit fu m) (repeat e n) l) else None
